@@ -248,8 +248,12 @@ type NegationNode struct {
 }
 
 func parseNegation(p *parser, t token) (Node, error) {
+	// A unary minus binds tighter than every binary operator
+	// (its operand ends at the next * / % + - ...) but not as
+	// tight as the postfix brackets and the dot: -a.b[0] is
+	// -(a.b[0]), and 8 / -2 / 2 is (8 / -2) / 2.
 	return &NegationNode{
-		RHS: p.parseExpression(p.bp(t.Type)),
+		RHS: p.parseExpression(p.bp(typeBraceOpen)),
 	}, nil
 }
 
